@@ -56,5 +56,32 @@ _GUARD_NESTED = {
     "params": {"kinds": {}, "maxstack": 4},
 }
 
+# found on the pinned tree (fixed in /repo): the guard fires inside a synchronous call made by a task, the task
+# catches the RuntimeError and goes on - get_active_task() inside it returned None for the rest of the step
+_GUARD_CAUGHT = {
+    "roots": [[
+        {"op": "let", "h": "h1", "f": {"task": [
+            {"op": "let", "h": "h2", "f": {"task": _chain(6, {"new": {"const": 1}})}},
+            {"op": "try", "body": [{"op": "sync", "x": "x3", "h": "h2"}], "x": "e3", "handler": [{"op": "probe"}]},
+            {"op": "probe"},
+            {"op": "return", "e": 7}]}},
+        {"op": "sync", "x": "x4", "h": "h1"},
+        {"op": "probe"},
+        {"op": "return", "e": {"var": "x4"}}]],
+    "params": {"kinds": {}, "maxstack": 4},
+}
+
+# found by the thorough tier on the pinned tree (fixed in /repo): a task killed while suspended (NonAsyncContext
+# assertion at pause) left the batch of the item it had yielded in the scheduler's set; the next computation on the
+# thread flushed that stale batch
+_STALE_BATCH = {
+    "roots": [
+        [{"op": "with", "c": {"nonasync": 1}, "body": [{"op": "yield", "x": "x1", "s": {"new": {"item": [1, 0, {"set": 1}]}}}]}],
+        [{"op": "yield", "x": "x2", "s": {"new": {"task": [
+            {"op": "yield", "x": "x3", "s": {"new": {"item": [0, 5, {"set": 2}]}}}, {"op": "return", "e": {"var": "x3"}}]}}},
+         {"op": "return", "e": {"var": "x2"}}]],
+    "params": {"kinds": {}},
+}
+
 mach.install(globals(), "C08", ("EvProbe", "EvSched"), ("C08:",), PROFILES, n_quick=300, n_thorough=25000,
-             nontrivial=_nontrivial, level="proof", corpus=[_GUARD_BATCH, _GUARD_NESTED])
+             nontrivial=_nontrivial, level="proof", corpus=[_GUARD_BATCH, _GUARD_NESTED, _GUARD_CAUGHT, _STALE_BATCH])
